@@ -225,6 +225,7 @@ class SrcInfo:
             txt = '\n'.join([lines[l1 - 1][c1 - 1:]] + lines[l1:l2 - 1] + [lines[l2 - 1][:c2 - 1]])
         txt = ' '.join(txt.split())
         res = None
+        uses = self.use_aliases(file)
         if txt.startswith('impl') or txt.startswith('unsafe impl'):
             t = txt[txt.index('impl') + 4:].strip()
             if t.startswith('<'):
@@ -237,8 +238,12 @@ class SrcInfo:
                     tr, ty = t[:i].strip(), t[i + 5:].strip()
                     break
             hty = self.head(ty)
-            hty = self.aliases.get(hty, hty)
-            res = (self.head(tr) if tr else None, hty, ty)
+            if hty not in self.adts:          # a `type X = ..` alias applies only if no struct/enum X is declared
+                hty = self.aliases.get(hty, hty)
+            htr = self.head(tr) if tr else None
+            htr = uses.get(htr, htr)
+            hty = uses.get(hty, hty)
+            res = (htr, hty, ty)
         else:
             # derive(...) span: the trait name; the type is the next struct/enum declared after the line
             tr = txt.split('::')[-1]
@@ -251,6 +256,17 @@ class SrcInfo:
             res = (tr, ty, ty)
         self.impl_cache[key] = res
         return res
+
+    def use_aliases(self, file):
+        """`use path::Real as Alias` renames of a source file: Alias -> Real"""
+        key = ('uses', file)
+        if key not in self.impl_cache:
+            m = {}
+            for real, alias in re.findall(r'\b(\w+)\s+as\s+(\w+)\s*[,;}]', strip_comments(self.text(file))):
+                if real not in ('self', 'crate', 'super', '_') and alias != '_':
+                    m[alias] = real
+            self.impl_cache[key] = m
+        return self.impl_cache[key]
 
     @staticmethod
     def head(ty):
